@@ -50,6 +50,8 @@ type caseCtx struct {
 	verbose  bool
 	viol     *Violation
 	probeErr string
+
+	inTieLoad bool // relational cases: inside the tie_load_* phase
 }
 
 func (c *caseCtx) logf(format string, args ...any) {
@@ -197,6 +199,9 @@ func (c *caseCtx) checkSerialize() []byte {
 		return fmt.Sprintf("ToJSON %s, json.Marshal %s (%v)", docText(js), docText(mj), mperr)
 	})
 
+	if c.t == nil { // relational cases have no twin
+		return c.ownContent(js, sc)
+	}
 	// the document mapped through rank equals the int twin's ToJSON
 	tj, terr := c.t.toJSON()
 	var tc content
@@ -210,7 +215,12 @@ func (c *caseCtx) checkSerialize() []byte {
 		return fmt.Sprintf("expected (int twin) %s = %s, observed (string side) %s = %s (%v)", docText(tj), c.canonical(tc).text(c.s.kt, c.s.vt), docText(js), c.canonical(sc).text(c.s.kt, c.s.vt), terr)
 	})
 
-	// the document is the container's own content
+	return c.ownContent(js, sc)
+}
+
+// ownContent: the document is the container's own content
+func (c *caseCtx) ownContent(js []byte, sc content) []byte {
+	kind := c.cfg.Kind
 	exp := content{kv: c.kv}
 	if c.kv {
 		for _, k := range c.s.keys() {
@@ -596,7 +606,12 @@ func chooseConfig(g *rng, seed uint64, idx int) Config {
 func runCase(pid string, seed uint64, idx int, verbose bool, checks map[string]int) (res caseResult) {
 	g := newRng(seed, uint64(idx), uint64(len(pid))*131+uint64(pid[len(pid)-1]))
 	c := &caseCtx{pid: pid, seed: seed, idx: idx, g: g, checks: checks, verbose: verbose, shapeful: true}
-	c.cfg = chooseConfig(g, seed, idx)
+	tie := idx%5 == 4 // every fifth case is a relational (tying comparator) case
+	if tie {
+		c.cfg = chooseTieConfig(g, seed, idx)
+	} else {
+		c.cfg = chooseConfig(g, seed, idx)
+	}
 	c.kv = isKVKind(c.cfg.Kind)
 	res.idx, res.kind, res.config = idx, c.cfg.Kind, c.cfg.String()
 	defer func() {
@@ -604,7 +619,7 @@ func runCase(pid string, seed uint64, idx int, verbose bool, checks map[string]i
 			if _, mine := r.(failSignal); !mine {
 				c.viol = &Violation{
 					What: fmt.Sprintf("%s (%s): panic", c.cfg.Kind, c.cfg), Kind: c.cfg.Kind, Config: c.cfg.String(),
-					History: append([]string{}, c.history...), Check: "no_panic", Detail: clip(fmt.Sprint(r), 600),
+					History: append([]string{}, c.history...), Check: map[bool]string{false: "no_panic", true: "tie_load_no_panic"}[c.inTieLoad], Detail: clip(fmt.Sprint(r), 600),
 					Replay: map[string]any{"seed": seed, "case": idx, "property": pid},
 				}
 			}
@@ -616,6 +631,13 @@ func runCase(pid string, seed uint64, idx int, verbose bool, checks map[string]i
 		res.nontrivial = len(c.history) > 0
 	}()
 	c.logf("case %d: %s %s", idx, c.cfg.Kind, c.cfg)
+	if tie {
+		c.runTieCase()
+		if c.verbose {
+			fmt.Fprintf(os.Stderr, "  final observation (ranks):\n%s", obsText(observe(c.s)))
+		}
+		return
+	}
 
 	// the case's preferred atoms
 	n := g.between(1, 12)
